@@ -37,7 +37,10 @@ THEOREMS = {
             "partialFit_wf", "addArm_wf", "removeArm_wf", "warmStart_wf", "predictExp_wf", "nhoodRow_keys",
             "binv_init", "binv_impFit", "binv_impPartialFit", "binv_impAddArm", "binv_impRemoveArm", "binv_step",
             "binv_reachable", "query_outputs_over_arms"],
-    "C09": ["argmax_first", "foldMax_spec", "argmaxFirst_mem", "predict_eq_argmax", "leWith_val"],
+    "C09": ["argmax_first", "foldMax_spec", "argmaxFirst_mem", "predict_eq_argmax", "leWith_val",
+            "nhoodRow_predict_eq_argmax", "nhoodRow_empty", "treeRow_predict_eq_argmax", "nhood_predictChunk_eq_argmax",
+            "clusters_predictChunk_eq_argmax", "tree_predictChunk_eq_argmax", "predictChunk_false_allInl", "splitOuts_toPred",
+            "impPredict_eq_argmax"],
     "C10": ["predictExp_readonly", "predict_readonly", "impPredict_readonly", "query_readonly",
             "fit_normT", "partialFit_normT", "addArm_normT", "removeArm_normT", "warmStart_normT", "predictExp_normT",
             "step_norm", "query_norm", "step_np", "norm_bisim", "queried_indistinguishable"],
@@ -90,7 +93,7 @@ IMPORTS = {
     "C06": ["MabModel.Props.C06", "MabModel.Props.C06b", "MabModel.Props.C06c"],
     "C07": ["MabModel.Props.C07", "MabModel.Props.C05c", "MabModel.Props.C07b"],
     "C08": ["MabModel.Props.C08", "MabModel.Props.C08b", "MabModel.Props.C08c"],
-    "C09": ["MabModel.Props.C09"],
+    "C09": ["MabModel.Props.C09", "MabModel.Props.C09b"],
     "C10": ["MabModel.Props.C10", "MabModel.Props.C10b"],
     "C11": ["MabModel.Props.C11"],
     "C12": ["MabModel.Props.C12", "MabModel.Props.C12b"],
